@@ -453,7 +453,16 @@ class Executor:
         ka, kb = a.ty.kind, b.ty.kind
         num = ("int", "bool")
         if isinstance(op, ast.Mod) and ka == "str":
-            yield st, fresh(STR, "fmt")
+            r = fresh(STR, "fmt")
+            lit = z3.simplify(a.v)
+            if z3.is_string_value(lit):
+                # the literal characters of the format survive formatting: the result is at least that long (so `assert "text %s" % x` never fires)
+                import re as _re
+
+                keep = len(_re.sub(r"%[-#0 +]*(\d+|\*)?(\.(\d+|\*))?[a-zA-Z]", "", lit.as_string().replace("%%", "%")))
+                if keep > 0:
+                    st = st.fork().assume(z3.Length(r.v) >= keep)
+            yield st, r
             return
         if isinstance(op, ast.Mod) and ka == "bytes":
             yield st, fresh(BYTES, "fmt")
@@ -1273,7 +1282,7 @@ class Executor:
             if case.kind == "return":
                 yield s2, res
             else:
-                e = ExcV(case.exc, tuple(fresh(STR, "excarg") for _ in range(getattr(case, "nargs", 0) or 0)), None, origin=f"{c.qualname}")
+                e = ExcV(case.exc, tuple(fresh(STR, "excarg") for _ in range(getattr(case, "nargs", 0) or 0)), None, origin=f"{c.qualname}:{case.name}")
                 e.exact = getattr(case, "exact", True)
                 e.excluded = ()
                 if getattr(case, "excluding", ()):
@@ -1486,11 +1495,45 @@ class Executor:
             cur = nxt
         return outs + [(s, (NEXT,)) for s in cur]
 
+    def empty_dict_for(self, target, value, st):
+        """`self.f = {}` where the sidecar schema declares f as a map: the empty map of that type (None otherwise)"""
+        if not (isinstance(value, ast.Dict) and not value.keys and isinstance(target, ast.Attribute) and isinstance(target.value, ast.Name)):
+            return None
+        recv = st.locals.get(target.value.id)
+        if recv is None or recv.ty.kind != "ref":
+            return None
+        try:
+            fd_ = self.w.schema.lookup(recv.ty.cls, target.attr)
+            fty = fd_.ty if fd_ is not None else None
+            if fty is None:
+                return None
+        except Exception:
+            return None
+        if fty.kind != "map":
+            return None
+        ks = fty.key.sorts()[0]
+        def dflt(vs):
+            # the value stored for absent keys is never read; a literal keeps the term inside what every back end parses (cvc5: constant arrays of values only)
+            if vs == z3.IntSort():
+                return z3.IntVal(0)
+            if vs == z3.BoolSort():
+                return z3.BoolVal(False)
+            if vs == z3.StringSort():
+                return z3.StringVal("")
+            if z3.is_seq_sort(vs) if hasattr(z3, "is_seq_sort") else isinstance(vs, z3.SeqSortRef):
+                return z3.Empty(vs)
+            return z3.Const(fresh_name("nokey"), vs)
+
+        return SV(fty, (z3.K(ks, z3.BoolVal(False)), [z3.K(ks, dflt(vs)) for vs in fty.val.sorts()]))
+
     def st_AnnAssign(self, node, st):
         if node.value is None:
             return [(st, (NEXT,))]
         outs = []
         ann = ast.unparse(node.annotation)
+        ed = self.empty_dict_for(node.target, node.value, st)
+        if ed is not None:
+            return [(s, (NEXT,)) for s in self.assign(node.target, ed, st, outs)] + outs
         for st2, v in self.ev(node.value, st, outs):
             if v.ty.kind == "set" and ann in ("set[str]", "set[int]") and z3.is_app(v.v) and v.v.decl().kind() == z3.Z3_OP_CONST_ARRAY:
                 # `x: set[str] = set()`: the annotation types the empty set (an element of another type then fails to coerce)
@@ -1502,6 +1545,10 @@ class Executor:
 
     def st_Assign(self, node, st):
         outs = []
+        if len(node.targets) == 1:
+            ed = self.empty_dict_for(node.targets[0], node.value, st)
+            if ed is not None:
+                return [(s, (NEXT,)) for s in self.assign(node.targets[0], ed, st, outs)] + outs
         for st2, v in self.ev(node.value, st, outs):
             cur = [st2]
             for tgt in node.targets:
@@ -1946,7 +1993,8 @@ class Executor:
                 for s2 in self.assign(node.target, elem_at(k), s_in, outs):
                     for s3, fl in self.exec_block(node.body, s2):
                         if fl[0] in (NEXT, CONTINUE):
-                            after_iteration(s3, fl[0])
+                            for s4 in self.live_dict_check(node, iterable, s3, outs):
+                                after_iteration(s4, fl[0])
                         elif fl[0] == BREAK:
                             exits.append((s3, "break"))
                         else:
@@ -1982,6 +2030,21 @@ class Executor:
             else:
                 outs.append((s, (NEXT,)))
         return outs
+
+    def live_dict_check(self, node, iterable, st, sink):
+        """`for k in d:` over a dict itself (not a snapshot list): asking the iterator for the next key after the body has added or removed a key raises RuntimeError
+        ("dictionary changed size during iteration").  Modelled on the key set: unchanged -> go on, changed -> RuntimeError."""
+        if iterable is None or iterable.ty.kind != "map":
+            yield st
+            return
+        for s2, now in self.ev(node.iter, st, sink):
+            if now.ty != iterable.ty:
+                raise Unsupported("the iterated dict was replaced by a value of another type")
+            for s3, same in self.fork(s2, now.v[0] == iterable.v[0]):
+                if same:
+                    yield s3
+                else:
+                    self.raise_(s3, sink, "RuntimeError", origin=f"dictionary changed size during iteration (line {node.lineno})")
 
     def iter_model(self, it: SV, st):
         k = it.ty.kind
